@@ -327,7 +327,11 @@ func init() {
 				r.Transitions.Add(2 + int64(len(c.Cuts)))
 				ok, sig, detail := c10Eval(c)
 				if nontrivial {
-					r.Distinct.Add(mustJSON(c))
+					if c.Op == "mixed" {
+						r.DistinctByConstruction.Add(1) // (location, program) pairs come from a tree walk: each exactly once
+					} else {
+						r.Distinct.Add(mustJSON(c))
+					}
 				}
 				if !ok {
 					r.Fail(engine.Failure{Sig: sig, Case: c, Detail: detail, Size: len(mustJSON(c))})
